@@ -1,0 +1,10 @@
+//go:build !verif
+
+package state
+
+import (
+	"0chain.net/core/datastore"
+	"github.com/0chain/common/core/util"
+)
+
+func verifObserve(_ *StateContext, _ int, _ datastore.Key, _ util.MPTSerializable, _ error) {}
